@@ -127,7 +127,7 @@ def _to_seq(self, a, kind):
     r = S.const(kind)
     k = z3.Int(fresh_name('i'))
     self.assume(S.len(r) == it.length)
-    self.assume(z3.ForAll([k], z3.Implies(z3.And(k >= 0, k < it.length), S.get(r, k) == it.at(k).t), patterns=[S.get(r, k)]))
+    self.assume(qforall([k], z3.Implies(z3.And(k >= 0, k < it.length), S.get(r, k) == it.at(k).t), patterns=[S.get(r, k)]))
     return self.new_box(SV(S, r)) if kind == 'list' else SV(S, r)
   raise OutsideSubset(f'{kind}({v!r})')
 
@@ -172,7 +172,7 @@ def b_all(self, a, kw):
     return g
   it = as_iter(self, a[0])
   k = z3.Int(fresh_name('i'))
-  return SV(BOOL, z3.ForAll([k], z3.Implies(z3.And(k >= 0, k < it.length), self.truthy(it.at(k)))))
+  return SV(BOOL, qforall([k], z3.Implies(z3.And(k >= 0, k < it.length), self.truthy(it.at(k)))))
 
 
 @H('range')
@@ -292,7 +292,7 @@ def b_str(self, a, kw):
     f = z3.Function('str_of_int!' + tgt.name, z3.IntSort(), tgt.z3())
     inv = z3.Function('int_of_str!' + tgt.name, tgt.z3(), z3.IntSort())
     i = z3.Int(fresh_name('i'))
-    ax = z3.ForAll([i], inv(f(i)) == i, patterns=[f(i)])
+    ax = qforall([i], inv(f(i)) == i, patterns=[f(i)])
     if not any(z3.eq(ax.body(), x.body()) for x in self.axioms if z3.is_quantifier(x)):
       self.axioms.append(ax)
     return SV(tgt, f(self.coerce(v, INT).t))
@@ -354,6 +354,15 @@ def b_dom(self, a, kw):
 def b_subset(self, a, kw):
   x, y = self.deref(a[0]), self.deref(a[1])
   return SV(BOOL, z3.IsSubset(x.t, self.coerce(y, x.sort).t))
+
+
+@H('ghost')
+def b_ghost(self, a, kw):
+  """spec-level: value recorded by a summary under this name on the current path"""
+  k = a[0].py
+  if k not in self.ghost:
+    raise OutsideSubset(f'ghost variable {k!r} was not recorded on this path')
+  return self.ghost[k]
 
 
 @H('other')
@@ -480,10 +489,10 @@ def seq_method(self, box, v, name, args):
     r = s.const('ins')
     k = z3.Int(fresh_name('i'))
     self.assume(s.len(r) == n + 1)
-    self.assume(z3.ForAll([k], z3.Implies(z3.And(k >= 0, k < p), s.get(r, k) == s.get(v.t, k)), patterns=[s.get(r, k)]))
+    self.assume(qforall([k], z3.Implies(z3.And(k >= 0, k < p), s.get(r, k) == s.get(v.t, k)), patterns=[s.get(r, k)]))
     self.assume(s.get(r, p) == x.t)
-    self.assume(z3.ForAll([k], z3.Implies(z3.And(k > p, k <= n), s.get(r, k) == s.get(v.t, k - 1)), patterns=[s.get(r, k)]))
-    self.assume(z3.ForAll([k], z3.Implies(z3.And(k >= p, k < n), s.get(r, k + 1) == s.get(v.t, k)), patterns=[s.get(v.t, k)]))
+    self.assume(qforall([k], z3.Implies(z3.And(k > p, k <= n), s.get(r, k) == s.get(v.t, k - 1)), patterns=[s.get(r, k)]))
+    self.assume(qforall([k], z3.Implies(z3.And(k >= p, k < n), s.get(r, k + 1) == s.get(v.t, k)), patterns=[s.get(v.t, k)]))
     self.mutate(box, SV(s, r))
     return NONEV
   if name == 'pop':
@@ -497,12 +506,14 @@ def seq_method(self, box, v, name, args):
     r = s.const('pop')
     k = z3.Int(fresh_name('i'))
     self.assume(s.len(r) == n - 1)
-    self.assume(z3.ForAll([k], z3.Implies(z3.And(k >= 0, k < p), s.get(r, k) == s.get(v.t, k)), patterns=[s.get(r, k)]))
-    self.assume(z3.ForAll([k], z3.Implies(z3.And(k >= p, k < n - 1), s.get(r, k) == s.get(v.t, k + 1)), patterns=[s.get(r, k)]))
-    self.assume(z3.ForAll([k], z3.Implies(z3.And(k > p, k < n), s.get(r, k - 1) == s.get(v.t, k)), patterns=[s.get(v.t, k)]))
+    self.assume(qforall([k], z3.Implies(z3.And(k >= 0, k < p), s.get(r, k) == s.get(v.t, k)), patterns=[s.get(r, k)]))
+    self.assume(qforall([k], z3.Implies(z3.And(k >= p, k < n - 1), s.get(r, k) == s.get(v.t, k + 1)), patterns=[s.get(r, k)]))
+    self.assume(qforall([k], z3.Implies(z3.And(k > p, k < n), s.get(r, k - 1) == s.get(v.t, k)), patterns=[s.get(v.t, k)]))
     out = SV(s.elem, s.get(v.t, p))
     self.mutate(box, SV(s, r))
     return out
+  if name == 'popleft':
+    return seq_method(self, box, v, 'pop', [0])
   if name == 'copy':
     return self.new_box(SV(s, v.t))
   if name == 'remove':
@@ -516,7 +527,7 @@ def seq_method(self, box, v, name, args):
     ex = self.contains(v, x)
     self.oblige(ex, 'safety:index-of')
     self.assume(z3.And(i >= 0, i < n, self.sort_eq(s.elem, s.get(v.t, i), x.t)))
-    self.assume(z3.ForAll([k], z3.Implies(z3.And(k >= 0, k < i), z3.Not(self.sort_eq(s.elem, s.get(v.t, k), x.t))), patterns=[s.get(v.t, k)]))
+    self.assume(qforall([k], z3.Implies(z3.And(k >= 0, k < i), z3.Not(self.sort_eq(s.elem, s.get(v.t, k), x.t))), patterns=[s.get(v.t, k)]))
     return SV(INT, i)
   raise OutsideSubset(f'list.{name}')
 
@@ -557,7 +568,7 @@ def map_method(self, box, v, name, args):
       r = s.const('upd')
       kk = z3.Const(fresh_name('k'), s.key.z3())
       self.assume(s.dom(r) == z3.SetUnion(s.dom(v.t), s.dom(o.t)))
-      self.assume(z3.ForAll([kk], s.get(r, kk) == z3.If(s.has(o.t, kk), s.get(o.t, kk), s.get(v.t, kk)), patterns=[s.get(r, kk)]))
+      self.assume(qforall([kk], s.get(r, kk) == z3.If(s.has(o.t, kk), s.get(o.t, kk), s.get(v.t, kk)), patterns=[s.get(r, kk)]))
       for f in s.keys_wf(r):
         self.assume(f)
       self.mutate(box, SV(s, r))
